@@ -293,10 +293,10 @@ def FKind.fitsVal : FKind → FVal → Bool
     else decide (0 ≤ n ∧ n < (2 : Int) ^ w)
   | .fixedArr elem len, .bytes b => b.length == elem * len
   | .arr elem, .bytes b => elem == 1 && decide (b.length < 65536)
-  | .arr elem, .nums l => elem != 1 && decide (l.length < 65536) && l.all (fun n => decide (n < 256 ^ elem))
+  | .arr elem, .nums l => elem != 1 && decide (l.length * elem < 65536) && l.all (fun n => decide (n < 256 ^ elem))
   | .str, .bytes b => decide (b.length < 65536)
   | .bitArr, .bits n b => decide (n < 65536) && b.length == (n + 7) / 8
-  | .rest, .bytes _ => true
+  | .rest, .bytes b => decide (b.length < 65536)
   | _, _ => false
 
 /-- field values match the field list (pads carry no value) -/
